@@ -1,5 +1,6 @@
 import XzVerif.Props.C02
 #print axioms Props.C02.C02_strict_segment
+#print axioms Props.C02.C02_strict_container
 #print axioms Props.C02.C02_tables_are_format
 #print axioms Props.C02.C02_padding
 #print axioms Props.C02.C02_dict_size_covers
